@@ -190,7 +190,7 @@ class ExtentAttribute:
 
   @staticmethod
   def set(ttml_element, res):
-    ttml_element.set(ExtentAttribute.qn, f"{res.width:g}px {res.height:g}px")
+    ttml_element.set(ExtentAttribute.qn, f"{utils.format_number(res.width)}px {utils.format_number(res.height)}px")
 
 class ActiveAreaAttribute:
   '''ittp:activeArea attribute on \\<tt\\>
@@ -250,10 +250,10 @@ class ActiveAreaAttribute:
   def set(ttml_element, active_area):
     ttml_element.set(
       ActiveAreaAttribute.qn, 
-      f"{active_area.left_offset * 100:g}% "
-      f"{active_area.top_offset * 100:g}% "
-      f"{active_area.width * 100:g}% "
-      f"{active_area.height * 100:g}%"
+      f"{utils.format_number(active_area.left_offset * 100)}% "
+      f"{utils.format_number(active_area.top_offset * 100)}% "
+      f"{utils.format_number(active_area.width * 100)}% "
+      f"{utils.format_number(active_area.height * 100)}%"
     )
 
 class TickRateAttribute:
@@ -350,7 +350,7 @@ class DisplayAspectRatioAttribute:
   def set(ttml_element, display_aspect_ratio: Fraction):
     ttml_element.set(
       DisplayAspectRatioAttribute.qn, 
-      f"{display_aspect_ratio.numerator:g} {display_aspect_ratio.denominator:g}"
+      f"{utils.format_number(display_aspect_ratio.numerator)} {utils.format_number(display_aspect_ratio.denominator)}"
     )
 
 class FrameRateAttribute:
@@ -431,7 +431,7 @@ class FrameRateAttribute:
 
       ttml_element.set(
         FrameRateAttribute.frame_rate_multiplier_qn, 
-        f"{fps_multiplier.numerator:g} {fps_multiplier.denominator:g}"
+        f"{utils.format_number(fps_multiplier.numerator)} {utils.format_number(fps_multiplier.denominator)}"
       )
 
 @dataclass
